@@ -36,7 +36,6 @@ UNITS = {
   'sokey': dict(wrapper='w_sokey.cpp', mode='seq', selftest=True, cut=['5localEv']),
   'seg2': dict(wrapper='w_uset.cpp', mode='lcs', unroll=2, ptratomics=True, threads={'vp_thr_s': ['a', 'b']}, prune=True),
   # split-ordered list, K=1 (quick) and K=2 (thorough) loop unrolling
-  'us_i_i1': US_UNIT({'vp_thr_i': ['a', 'b']}, unroll=1),
   'us_i_i': US_UNIT({'vp_thr_i': ['a', 'b']}),
   'us_i_f': US_UNIT({'vp_thr_i': ['a'], 'vp_thr_f': ['b']}),
   'us_i_t': US_UNIT({'vp_thr_i': ['a'], 'vp_thr_t': ['b']}),
@@ -72,14 +71,14 @@ HARNESSES = [
        desc='bucket table my_segments[i] || my_segments[j] (real segment_table::internal_subscript/enable_segment/create_segment/deallocate_segment): lazy segment '
             'allocation race: one segment survives, same slot for the same index, loser freed once, slot addresses stable',
        bounds=B(free_rounds=2, loop_unroll=2, indices='concrete per scenario (segments 0,1,2)')),
-  dict(name='uset_ins_2t', unit='us_i_i1', harness='h_uset.c', defines=dict(USD, TA='i', TB='i', NV=4, ND=1),
-       scenarios_quick=[{'KA0': 5, 'KB0': 5}, {'KA0': 5, 'KB0': 7}, {'KA0': 5, 'KB0': 7, 'HMODE': 1}],
-       scenarios=[{'KA0': 5, 'KB0': 5}, {'KA0': 5, 'KB0': 7}, {'KA0': 5, 'KB0': 4}, {'KA0': 3, 'KB0': 3}, {'KA0': 5, 'KB0': 5, 'HMODE': 1}, {'KA0': 5, 'KB0': 7, 'HMODE': 1},
+  dict(name='uset_ins_2t', unit='us_i_i', harness='h_uset.c', defines=dict(USD, TA='i', TB='i', NV=4, ND=1),
+       scenarios_quick=[{'KA0': 5, 'KB0': 5}, {'KA0': 5, 'KB0': 13}, {'KA0': 5, 'KB0': 7, 'HMODE': 1}],
+       scenarios=[{'KA0': 5, 'KB0': 5}, {'KA0': 5, 'KB0': 13}, {'KA0': 5, 'KB0': 7}, {'KA0': 5, 'KB0': 4}, {'KA0': 3, 'KB0': 3}, {'KA0': 5, 'KB0': 5, 'HMODE': 1}, {'KA0': 5, 'KB0': 7, 'HMODE': 1},
                   {'KA0': 4, 'KB0': 5, 'HMODE': 3, 'PRE0': 2, 'PRE1': 1}, {'KA0': 5, 'KB0': 7, 'HMODE': 2}],
-       cbmc=US_CBMC(), timeout=900, thorough_override=dict(unit='us_i_i', defines=dict(USD, TA='i', TB='i', NV=4, ND=1, ROUNDS=2), timeout=2400),
+       cbmc=US_CBMC(), timeout=900, thorough_override=dict(defines=dict(USD, TA='i', TB='i', NV=4, ND=1, ROUNDS=2), timeout=2400),
        desc='concurrent_unordered_set<int>: insert(ka) || insert(kb) through the real internal_insert/search_after/try_insert (same key: one winner; keys adjacent in '
             'split order at the same predecessor; all keys one hash: equal order keys decided by key_equal). Whole-list oracle at quiescence.',
-       bounds=B(keys='concrete per scenario', hash='identity | constant | 16k | bit63 alias', buckets=2, thorough='free_rounds 2, loop_unroll 2')),
+       bounds=B(loop_unroll=2, keys='concrete per scenario', hash='identity | constant | 16k | bit63 alias', buckets=2, thorough='free_rounds 2')),
   dict(name='uset_find_2t', unit='us_i_f', harness='h_uset.c', defines=dict(USD, TA='i', TB='f', NV=3, ND=1),
        scenarios=[{'KA0': 5, 'KB0': 5}, {'KA0': 5, 'KB0': 3}], cbmc=US_CBMC(), timeout=900, thorough_override=dict(defines=dict(USD, TA='i', TB='f', NV=3, ND=1, ROUNDS=2), timeout=2400),
        desc='insert(ka) || find(kb): a find that starts after the insert returned finds the key; a pre-existing key behind the insertion point is never missed',
